@@ -35,7 +35,7 @@ pub struct Cfg {
     pub strat: String,
     #[serde(default)]
     pub stream: bool,
-    #[serde(default)]
+    #[serde(default = "neg1")]
     pub tmo: i64,
     #[serde(default)]
     pub failto: bool,
@@ -58,12 +58,12 @@ pub struct Cfg {
 }
 impl Cfg {
     fn is_default(&self) -> bool {
-        self.cap == -1 && self.strat == "restart" && !self.stream && self.tmo == 0 && !self.failto && !self.owning && self.sscr.is_empty() && self.pscr.is_empty() && self.fscr.is_empty() && self.ty == "0" && self.items0 == 0 && !self.ended0 && self.iscr.is_empty()
+        self.cap == -1 && self.strat == "restart" && !self.stream && self.tmo < 0 && !self.failto && !self.owning && self.sscr.is_empty() && self.pscr.is_empty() && self.fscr.is_empty() && self.ty == "0" && self.items0 == 0 && !self.ended0 && self.iscr.is_empty()
     }
 }
 impl Default for Cfg {
     fn default() -> Self {
-        Cfg { cap: -1, strat: "restart".into(), stream: false, tmo: 0, failto: false, owning: false, sscr: vec![], pscr: vec![], fscr: vec![], ty: "0".into(), items0: 0, ended0: false, iscr: vec![] }
+        Cfg { cap: -1, strat: "restart".into(), stream: false, tmo: -1, failto: false, owning: false, sscr: vec![], pscr: vec![], fscr: vec![], ty: "0".into(), items0: 0, ended0: false, iscr: vec![] }
     }
 }
 
@@ -508,7 +508,7 @@ fn spawn_actor_k<const K: usize>(c: &str, o: &Op) -> Res {
     ex.label_next_actor(&o.a);
     let cf = &o.cfg;
     let actor = H::<K>::new();
-    let plain = cf.cap == -1 && cf.strat == "restart" && cf.tmo == 0 && !cf.failto && !cf.stream;
+    let plain = cf.cap == -1 && cf.strat == "restart" && cf.tmo < 0 && !cf.failto && !cf.stream;
     let hv = if cf.stream {
         let st = std::sync::Arc::new(std::sync::Mutex::new(crate::actors::StreamState { ready: cf.items0, next: 1, ended: cf.ended0, waker: None }));
         WORLD.with(|w| w.borrow_mut().streams.insert(o.a.clone(), st.clone()));
@@ -525,17 +525,52 @@ fn spawn_actor_k<const K: usize>(c: &str, o: &Op) -> Res {
             let b = if cf.cap >= 0 { base.bounded_on_stream(cf.cap as usize, stream) } else { base.on_stream(stream) };
             if cf.owning { HandleV::Owning(Box::new(b.spawn_owning())) } else { HandleV::Addr(Box::new(b.spawn())) }
         }
-    } else if plain && o.entry != "builder" {
+    } else if plain && !o.entry.starts_with("builder") {
         if cf.owning { HandleV::Owning(Box::new(actor.spawn_owning())) } else { HandleV::Addr(Box::new(actor.spawn())) }
     } else {
+        // the configuration methods exist on both builder stages and in any order (entry "builder:<k>")
+        let variant: u32 = o.entry.strip_prefix("builder:").and_then(|k| k.parse().ok()).unwrap_or(0);
+        let d = Duration::from_millis(cf.tmo.max(0) as u64);
         let mut base = hannibal::build(actor);
-        if cf.tmo > 0 {
-            base = base.timeout(Duration::from_millis(cf.tmo as u64));
+        match variant {
+            0 => {
+                if cf.tmo >= 0 {
+                    base = base.timeout(d);
+                }
+                if cf.failto {
+                    base = base.fail_on_timeout(true);
+                }
+            }
+            1 => {
+                if cf.failto {
+                    base = base.fail_on_timeout(true);
+                }
+                if cf.tmo >= 0 {
+                    base = base.timeout(d);
+                }
+            }
+            _ => {}
         }
-        if cf.failto {
-            base = base.fail_on_timeout(true);
+        let mut ch = if cf.cap >= 0 { base.bounded(cf.cap as usize) } else { base.unbounded() };
+        match variant {
+            2 => {
+                if cf.tmo >= 0 {
+                    ch = ch.timeout(d);
+                }
+                if cf.failto {
+                    ch = ch.fail_on_timeout(true);
+                }
+            }
+            3 => {
+                if cf.failto {
+                    ch = ch.fail_on_timeout(true);
+                }
+                if cf.tmo >= 0 {
+                    ch = ch.timeout(d);
+                }
+            }
+            _ => {}
         }
-        let ch = if cf.cap >= 0 { base.bounded(cf.cap as usize) } else { base.unbounded() };
         macro_rules! fin {
             ($b:expr) => {
                 if cf.owning { HandleV::Owning(Box::new($b.spawn_owning())) } else { HandleV::Addr(Box::new($b.spawn())) }
@@ -862,8 +897,29 @@ async fn run_op(c: &str, n: i64, o: &Op) -> Res {
         "join" => {
             let mut h = take_h(&o.h);
             let a = actor_of(h.aid());
+            // d = 2: an earlier join future that was polled once and is parked must not block a later join
+            //        (the later one finds the handle taken and returns None at once);
+            // d = 3: a join future that was created but never polled, then dropped, takes nothing with it.
+            // For the specification all of these are the plain `join` operation.
             let j = match &mut h {
-                Owning(x) => x.join().await,
+                Owning(x) => match o.d {
+                    2 => {
+                        let mut f1 = x.join();
+                        match futures::poll!(&mut f1) {
+                            std::task::Poll::Ready(r) => r,
+                            std::task::Poll::Pending => {
+                                let second = x.join().await;
+                                assert!(second.is_none(), "harness: second join returned a value");
+                                f1.await
+                            }
+                        }
+                    }
+                    3 => {
+                        drop(x.join());
+                        x.join().await
+                    }
+                    _ => x.join().await,
+                },
                 _ => panic!("harness: join on wrong kind"),
             };
             put_h(&o.h, h);
